@@ -10,7 +10,7 @@
    [nodupk (map (dkey src) ds)]: its deposits are pairwise different (destination, nonce). *)
 From Coq Require Import List NArith Bool.
 Import ListNotations.
-From SygmaV Require Import Model.C17 Proofs.C17 Proofs.C17_Conc.
+From SygmaV Require Import Model.C17 Proofs.C17 Proofs.C17_Conc Proofs.C17_Script.
 Local Open Scope N_scope.
 
 (* A retry re-emits those and only those deposits of the block that are selected (destination and
@@ -171,6 +171,80 @@ Example C17_conc_nonvacuous :
   map (fun ob : obs => fst ob) (proj 0 (fst (crun [1; 0; 1; 0; 1; 0]%nat (cw_init, [cw_t0; cw_t1]))))
   = [(ORetry [mkDep 2 1 7; mkDep 2 2 7], [(1, 2, 9)]); (ODeliver (Some [(1, 2, 1)]), []); (OExec, [])].
 Proof. vm_compute. repeat split. Qed.
+
+(* ---- two operations meeting inside a call ----
+   The executor holds propMutex around the whole admission of a delivery and around the whole end of an
+   execution, so when one of them is let in at a store call of the other the outcome is one of the two
+   atomic orders.  In EITHER order: a proposal recorded executed at any point of the history is
+   executed at every later point and at the end, the judge accepts the history and no call is stuck -
+   this is what the scripted interleavings of the runner are compared with and judged by. *)
+Theorem C17_script_executed_absorbing : forall prefix a b suffix ops x k n,
+  In ops (script_orders prefix a b suffix) ->
+  is_exec (get (s_kv (st (final (firstn n ops) x))) k) = true ->
+  is_exec (get (s_kv (st (final ops x))) k) = true /\
+  Forall (fun ob : obs => is_exec (get (snd ob) k) = true) (run (skipn n ops) (final (firstn n ops) x)).
+Proof. exact script_executed_absorbing. Qed.
+Print Assumptions C17_script_executed_absorbing.
+
+Theorem C17_script_judge_accepts : forall univ prefix a b suffix ops x,
+  In ops (script_orders prefix a b suffix) -> locked x = false ->
+  forallb wf_op (prefix ++ [a; b] ++ suffix) = true ->
+  hist_ok univ (s_kv (st x)) ops (run ops x) = true /\
+  Forall (fun ob : obs => fst (fst ob) <> OStuck) (run ops x).
+Proof. exact script_judge_accepts. Qed.
+Print Assumptions C17_script_judge_accepts.
+
+(* The admission at the granularity of its store calls: first the status reads, then the "pending"
+   marks, any other operation scheduled in between.  WITH the mutex held from before the reads until
+   after the marks (the code), for EVERY schedule of whole operations (retries, which take no mutex,
+   included) and halves of admissions: executed is final - between the halves only retries get through,
+   and a retry never records anything as executed nor touches an executed status ... *)
+Theorem C17_mutex_split_executed_absorbing : forall ops z k, adm_inv z ->
+  is_exec (get (s_kv (st (s_x z))) k) = true ->
+  is_exec (get (s_kv (st (s_x (sfinal true ops z)))) k) = true /\
+  Forall (fun ob : obs => is_exec (get (snd ob) k) = true) (srun true ops z).
+Proof. exact mutex_split_executed_absorbing. Qed.
+Print Assumptions C17_mutex_split_executed_absorbing.
+
+(* ... the two halves made one right after the other by an idle executor ARE the atomic admission
+   (distinct proposals, no store error) ... *)
+Theorem C17_split_is_atomic : forall ks m bs, nodupk ks = true ->
+  let z := mkS (mkState (mkSto m [] []) false bs) None in
+  let z2 := fst (sstep true AdmitWrite (fst (sstep true (AdmitRead ks) z))) in
+  s_x z2 = fst (step (Deliver ks) (s_x z)) /\ s_adm z2 = None /\
+  snd (sstep true AdmitWrite (fst (sstep true (AdmitRead ks) z))) = snd (step (Deliver ks) (s_x z)).
+Proof. exact split_is_atomic. Qed.
+Print Assumptions C17_split_is_atomic.
+
+(* ... and an admission that reads the statuses WITHOUT the mutex and takes it only for the marks
+   violates the property: deliver, retry (released), the redelivery reads "failed", the first execution
+   records "executed", the redelivery marks "pending", its execution fails - the executed deposit is
+   failed, re-emitted and admitted again; with the mutex the same schedule makes the first execution's
+   end wait. *)
+Theorem C17_split_admission_refuted :
+  map (fun ob : obs => (fst (fst ob), get (snd ob) w_k)) (srun false w_split_ops (sinit []))
+  = [(ODeliver (Some [w_k]), Pending); (ORetry [w_dep], Failed); (OExec, Failed); (OExec, Executed);
+     (ODeliver (Some [w_k]), Pending); (OExec, Failed); (ORetry [w_dep], Failed); (ODeliver (Some [w_k]), Pending)] /\
+  map (fun ob : obs => (fst (fst ob), get (snd ob) w_k)) (srun true w_split_ops (sinit []))
+  = [(ODeliver (Some [w_k]), Pending); (ORetry [w_dep], Failed); (OExec, Failed); (OStuck, Failed);
+     (ODeliver (Some [w_k]), Pending); (OExec, Failed); (ORetry [w_dep], Failed); (ODeliver (Some [w_k]), Pending)].
+Proof. exact split_admission_refuted. Qed.
+Print Assumptions C17_split_admission_refuted.
+
+(* Non-vacuity: the invariant holds at the start and in the middle of an admission, both orders of a
+   script are histories of the model that end with the executed status kept. *)
+Example C17_script_nonvacuous :
+  adm_inv (sinit []) /\
+  adm_inv (fst (sstep true (AdmitRead [w_k]) (sinit [(w_k, Failed)]))) /\
+  s_adm (fst (sstep true (AdmitRead [w_k]) (sinit [(w_k, Failed)]))) = Some [w_k] /\
+  map (fun ops => map (fun ob : obs => (fst (fst ob), get (snd ob) w_k)) (run ops (init_state [] [])))
+      (script_orders [Deliver [w_k]; Retry PFilter 1 1 2 [w_dep]] (Deliver [w_k]) (ExecOk 0) [ExecFail 1; Retry PFilter 1 1 2 [w_dep]])
+  = [[(ODeliver (Some [w_k]), Pending); (ORetry [w_dep], Failed); (ODeliver (Some [w_k]), Pending); (OExec, Executed); (OExec, Executed); (ORetry [], Executed)];
+     [(ODeliver (Some [w_k]), Pending); (ORetry [w_dep], Failed); (OExec, Executed); (ODeliver (Some []), Executed); (OExec, Executed); (ORetry [], Executed)]].
+Proof.
+  split; [exact I|]. split; [split; [reflexivity|]; intros k [<-|[]]; reflexivity|].
+  split; reflexivity.
+Qed.
 
 (* The two isExecuted copies (relayer/retry and the EVM RetryV1 handler) are the same function. *)
 Theorem C17_is_executed_copies_agree : is_executed_v1 = is_executed_retry.
